@@ -582,6 +582,12 @@ def run_prop(ctx, prop, focuses):
         out.rule = "replay: the process-backend stuck-sibling probe is re-run"
         m1_threads.stuck_sibling_process_probe(ctx, out, {prop}, 8)
         return out
+    if ctx.replay and ctx.replay.get("case", {}).get("kind") == "native-startup-fault":
+        from . import m1_threads
+        out = Result()
+        out.rule = "replay: the start-up fault probe is re-run"
+        m1_threads.startup_fault_probe(ctx, out, {prop}, 100)
+        return out
     if ctx.replay and ctx.replay.get("case", {}).get("kind") == "native-shutdown-fault":
         from . import m1_threads
         out = Result()
@@ -617,6 +623,7 @@ def run_prop(ctx, prop, focuses):
             m1_threads.stuck_sibling_probe(ctx, out, {prop}, 8)
             m1_threads.stuck_sibling_process_probe(ctx, out, {prop}, 8)
             m1_threads.shutdown_fault_probe(ctx, out, {prop}, 16)
+            m1_threads.startup_fault_probe(ctx, out, {prop}, 100)
         return out
     rs = [explore(ctx, {prop}, 2400 // len(focuses), f"quick-{f}", f) for f in focuses]
     out = merge(rs)
@@ -635,6 +642,7 @@ def run_prop(ctx, prop, focuses):
         m1_threads.stuck_sibling_probe(ctx, out, {prop}, 3)
         m1_threads.stuck_sibling_process_probe(ctx, out, {prop}, 8)
         m1_threads.shutdown_fault_probe(ctx, out, {prop}, 16)
+        m1_threads.startup_fault_probe(ctx, out, {prop}, 100)
     return out
 
 
